@@ -152,6 +152,18 @@ func init() {
 		d[string(str)] = dflt
 		return dflt, nil
 	}, 0, "setdefault(k[,d]) -> D.get(k,d), also set D[k]=d if k not in D")
+
+	StringDictType.Dict["clear"] = MustNewMethod("clear", func(self Object, args Tuple) (Object, error) {
+		err := UnpackTuple(args, nil, "clear", 0, 0)
+		if err != nil {
+			return nil, err
+		}
+		d := self.(StringDict)
+		for k := range d {
+			delete(d, k)
+		}
+		return None, nil
+	}, 0, "clear() -> None.  Remove all items from D.")
 }
 
 // String to object dictionary
